@@ -7,7 +7,7 @@
        the sequential meaning of the chain ([eval_chain], Model/ChainSpec.v) — which never builds a graph.
        Props/C01.v (chain_lowering_correct) proves (1) = (2) for well-formed chains; evaluating both ties the
        specification itself, not only the lowered graph, to the implementation. *)
-From Eino Require Import Base.Util Model.Graph Model.Chain Model.ChainSpec Model.ChainCompile Model.PregelOpts Model.GraphCmp.
+From Eino Require Import Base.Util Model.Graph Model.Chain Model.ChainSpec Model.ChainCompile Model.PregelOpts Model.PregelHyps Model.GraphCmp.
 
 (* cc_entry: the public entry point the root was called through: 0 = Invoke, 1 = Stream (output chunks
    concatenated), 2 = Transform (input cut into one chunk per top-level key, output concatenated).
@@ -63,7 +63,12 @@ Definition run_bad (c : ccase) : bool :=
   if (negb (N.eqb (cc_entry c) 0) && stream_incomparable (eff c))%bool then false
   else gcase_bad (eff c) || negb (chain_spec_ok (eff c)).
 
+(* (4) the hypotheses of the theorems hold on the case ([hyps_ok], Model/PregelHyps.v: every any-predecessor entry
+   of the lowered forest is a pregel_graph with unique node keys and data-carrying branches, sub-graph nodes
+   refer to later entries) — a case outside them would be compared with a model the theorems say nothing about *)
 Definition bad (c : ccase) : bool :=
   negb (compile_agrees (cc_case c))
-  || (if forest_compiles (gc_forest (cc_case c)) then run_bad c else false).
+  || (if forest_compiles (gc_forest (cc_case c))
+      then negb (hyps_ok (lower_forest (gc_forest (eff c)))) || run_bad c
+      else false).
 Definition mismatches (cs : list ccase) : list nat := mismatches_from bad 0 cs.
